@@ -1,5 +1,6 @@
 import Replicon.Proofs.Events
 import Replicon.Proofs.JointEvents
+import Replicon.Proofs.JumpEvents
 /-
 C05 — Remote events: exactly once, in order, to the intended recipients only.
 
@@ -141,6 +142,34 @@ theorem C05_history_late_joiner (c ch : Nat) (a : Bool) (st : Joint.St) (inv : J
 /-- … and every state a history reaches satisfies the invariant that theorem needs -/
 theorem C05_history_reachable (ops : List Joint.Op) : Joint.Inv (Joint.run {} ops).1 :=
   (Joint.inv_run ops {} Joint.inv_init).1
+
+/-- `C05_history_order` / `_at_most_once` / `_late_joiner` for histories in which the tick also
+advances by more than one at once (`Joint.OpJ`, `Proofs/Jump.lean`, `Proofs/JumpEvents.lean`). -/
+theorem C05_history_order_with_tick_jumps (c ch : Nat) (ops : List Joint.OpJ) :
+    List.Sublist (Joint.sentIds c ch (Joint.runJ {} ops).2) (Joint.emittedIdsJ ch ops) :=
+  Joint.sent_subJ_init c ch ops
+
+theorem C05_history_at_most_once_with_tick_jumps (c ch : Nat) (ops : List Joint.OpJ)
+    (h : (Joint.emittedIdsJ ch ops).Nodup) : (Joint.sentIds c ch (Joint.runJ {} ops).2).Nodup :=
+  (C05_history_order_with_tick_jumps c ch ops).nodup h
+
+theorem C05_history_late_joiner_with_tick_jumps (c ch : Nat) (a : Bool) (st : Joint.St) (inv : Joint.Inv st)
+    (ops : List Joint.OpJ) :
+    List.Sublist (Joint.sentIds c ch (Joint.runJ (Joint.step st (.connect c a)).1 ops).2)
+      (Joint.depIds ch st.pending ++ Joint.emittedIdsJ ch ops) :=
+  Joint.sent_subJ_connect c ch a ops st inv
+
+/-- Non-vacuity with jumps: the history of the next example with the tick jumping by 200 and by
+4294967296 between the frames; the same events reach the same clients. -/
+example :
+    let e (i : Nat) : Joint.OpJ := .op (.emit { ev := { id := i, chan := 2, mode := .broadcast }, independent := false })
+    let f (t : Bool) : Joint.OpJ := .op (.frame t 10 (fun _ => []))
+    let ops : List Joint.OpJ :=
+      [.op .start, .op (.connect 0 true), e 10, f true, .jump 200, e 11, f false,
+       .op (.connect 1 true), e 12, .jump 4294967296, f false, f true, f true]
+    (Joint.sentIds 0 2 (Joint.runJ {} ops).2, Joint.sentIds 1 2 (Joint.runJ {} ops).2, Joint.emittedIdsJ 2 ops) =
+      ([10, 11, 12], [12], [10, 11, 12]) := by
+  decide
 
 /-- Non-vacuity: two events buffered over two frames without a tick, a client connecting in
 between two emissions, a tick: the early client gets all three in order, the late one only what
